@@ -416,7 +416,7 @@ func runC13(c *Ctx) {
 		for i := range k.Contexts {
 			strip(&k.Contexts[i])
 		}
-		k.Now = certNB.Add(time.Duration(r.Int63n(int64(300*24*time.Hour)))).In(time.FixedZone("", (r.Intn(27)-13)*3600))
+		k.Now = certNB.Add(time.Duration(r.Int63n(int64(300 * 24 * time.Hour)))).In(time.FixedZone("", (r.Intn(27)-13)*3600))
 		// logout messages are signed whatever SignAuthnRequests says: half of them are built with the flag off (the reported and
 		// the published signing certificate must still be the one that verifies them)
 		k.Sign = pl.Kind == "authn" || r.Intn(2) == 0
